@@ -33,7 +33,7 @@ var checkSpecs = map[string]*checkSpec{
 	},
 	"C05": {
 		assumptions: append([]string{
-			"session/listener/FEC-decoder receive paths are separate harnesses (see evidence harness list)",
+			"session level: arbitrary bytes into Listener.packetInput (known / new address) and UDPSession.packetInput after a real connection set-up",
 		}, kcpStateAssumptions...),
 		stubs: commonStubs,
 		bounds: map[string]string{
@@ -41,6 +41,49 @@ var checkSpecs = map[string]*checkSpec{
 			"thorough": "adds datagrams of 0..160 bytes with up to three complete segments (payloads 0..4+) from the full shape product",
 		},
 		outside: "32-bit int; recvmmsg batch path; datagrams with more than 3 segments (each loop iteration starts from a state covered by the one-segment step)",
+	},
+	"C06": {
+		assumptions: []string{
+			"CRC-32's error-detection strength and AES-GCM's unforgeability are mathematics of hash/crc32 and crypto/cipher: the check only uses that the stored value differs from f(bytes) / that Open fails",
+			"pre-states are built through the public path (client Write -> real postProcess -> stub socket -> real Listener.packetInput -> accept)",
+			"write sets are computed by the executor's store journal over everything reachable from the listener / session (cipher scratch buffers, lock words and SNMP counters excluded); native twin: reflect-based deep snapshot",
+		},
+		stubs: append([]string{"net.PacketConn/net.Addr -> harness types (WriteTo records, ReadFrom scripted or parked)", "hash/crc32.ChecksumIEEE -> chained uninterpreted function of the bytes", "cipher.AEAD -> documented Seal/Open contract over uninterpreted keystream/tag functions (native replay: real AES-GCM)", "fillRand -> fresh tagged symbolic bytes per call", "go statements are recorded, not run: postProcess is driven by the harness until it blocks (vfRunUntilBlocked); SystemTimedSched replaced by an inert scheduler", "reedsolomon -> abstract MDS codec"}, commonStubs...),
+		bounds: map[string]string{
+			"quick":    "listener and dialled session, cipher in {none-class (nonce+CRC32 path), AEAD} x FEC {off,(2,1)}, one established session, arbitrary datagram bytes of 14 lengths in 0..64 assumed to fail the configured check, from the known or a new address: empty write set on listener, table, accept queue, sessions; no wake-up; converse: every datagram the real sender emits (data and parity) passes the check",
+			"thorough": "adds the real blockCrypt over the uninterpreted 16-byte block function and every length 0..64",
+		},
+		outside: "corruptions the CRC cannot catch (by the property's own scope); datagrams longer than 64 bytes (the gate is length-independent code)",
+	},
+	"C11": {
+		assumptions: []string{
+			"the listener handles datagrams one at a time in one goroutine, so all interleavings of peers' datagrams are all sequences and one step from an arbitrary table covers them (DESIGN.md C11)",
+			"pre-states through the public path; two peers at two addresses",
+		},
+		stubs: append([]string{"net.PacketConn/net.Addr -> harness types (WriteTo records, ReadFrom scripted or parked)", "hash/crc32.ChecksumIEEE -> chained uninterpreted function of the bytes", "cipher.AEAD -> documented Seal/Open contract over uninterpreted keystream/tag functions (native replay: real AES-GCM)", "fillRand -> fresh tagged symbolic bytes per call", "go statements are recorded, not run: postProcess is driven by the harness until it blocks (vfRunUntilBlocked); SystemTimedSched replaced by an inert scheduler", "reedsolomon -> abstract MDS codec"}, commonStubs...),
+		bounds: map[string]string{
+			"quick":    "listener with sessions at two addresses, cipher {nil, none-class} x FEC {off,(2,1)}: arbitrary bytes (5 lengths) from one address leave the other session, its table entry and the table size untouched; new peer: exactly one session + one accept with its conv/address, second datagram adds nothing, full backlog creates nothing; same address with foreign conv: ignored unless sn==0, then replaced by a fresh session, old stream untouched; KCP.Input with foreign conv returns -1 with empty write set from 7 shapes; defaultReadLoop drops datagrams from another address (string and *net.UDPAddr forms, other IP / other port / other type)",
+			"thorough": "same with full shape product for the core clause",
+		},
+		outside: "the recvmmsg read loop (same filter code shape, not interpretable through ipv4.PacketConn); ghost sessions created by stale traffic after the application closed a session",
+	},
+	"C19": {
+		assumptions: []string{"pre-states through the public path; FEC (2,1); session MTU 100 so that maximal payloads stay small"},
+		stubs:       append([]string{"net.PacketConn/net.Addr -> harness types (WriteTo records, ReadFrom scripted or parked)", "hash/crc32.ChecksumIEEE -> chained uninterpreted function of the bytes", "cipher.AEAD -> documented Seal/Open contract over uninterpreted keystream/tag functions (native replay: real AES-GCM)", "fillRand -> fresh tagged symbolic bytes per call", "go statements are recorded, not run: postProcess is driven by the harness until it blocks (vfRunUntilBlocked); SystemTimedSched replaced by an inert scheduler", "reedsolomon -> abstract MDS codec"}, commonStubs...),
+		bounds: map[string]string{
+			"quick":    "cipher {nil, none-class, AEAD}; payload lengths {0,1,max-1,max,max+1} with symbolic bytes: refused iff oversize or FEC off; the datagram produced by the real postProcess, fed to the real Listener.packetInput, calls the handler exactly once with exactly the payload; encoder sequence id / shard count / max size, both KCP cores and the FEC decoder have empty write sets; a full post-processing queue drops and recycles once",
+			"thorough": "same",
+		},
+		outside: "rates (per-call non-blocking argument only); handler on the dialled side is the same kcpInput code path",
+	},
+	"C09": {
+		assumptions: []string{"entropy quality is outside the claim: nonces are 'fresh' when they come from distinct fillRand calls", "README layout: [nonce16|crc32 4] or [nonce12|sealed], [seqid4|type2|size2], 24-byte little-endian headers + len bytes"},
+		stubs:       append([]string{"net.PacketConn/net.Addr -> harness types (WriteTo records, ReadFrom scripted or parked)", "hash/crc32.ChecksumIEEE -> chained uninterpreted function of the bytes", "cipher.AEAD -> documented Seal/Open contract over uninterpreted keystream/tag functions (native replay: real AES-GCM)", "fillRand -> fresh tagged symbolic bytes per call", "go statements are recorded, not run: postProcess is driven by the harness until it blocks (vfRunUntilBlocked); SystemTimedSched replaced by an inert scheduler", "reedsolomon -> abstract MDS codec"}, commonStubs...),
+		bounds: map[string]string{
+			"quick":    "two 3-byte writes through a real session for cipher {nil, none-class, AEAD} x FEC {off,(2,1)}: every datagram on the stub socket is parsed by an independent decoder written from the README (CRC over exactly the rest, FEC id/type/size, KCP headers), the written bytes are reassembled from the wire alone, nonces pairwise from distinct fillRand calls (parity included); segment.encode vs the independent decoder is exercised on every emitted datagram of the C04/C10 flush harnesses; encoder id/type invariants: C07 harnesses",
+			"thorough": "same",
+		},
+		outside: "statistical quality of the entropy source; retransmission datagrams at session level (core level: C04 flush harnesses decode every emitted datagram)",
 	},
 	"C07": {
 		assumptions: []string{
@@ -67,6 +110,20 @@ var checkSpecs = map[string]*checkSpec{
 			"thorough": "windows up to 8, ratios up to (4,2)",
 		},
 		outside: "the literal 258+2(d+p) packet count for every d+p <= 255 under arbitrary pre-convergence faults; ratios with d+p > 6",
+	},
+	"C08": {
+		assumptions: []string{
+			"the block cipher is an uninterpreted function E: bytes^bs -> bytes^bs (one UF per output byte), so every equality proved holds for every deterministic 8- or 16-byte block function, i.e. AES-128/192/256, SM4, Twofish, 3DES, CAST5, Blowfish, TEA, XTEA at once; their constructors all go through newBlockCrypt, whose scratch sizes are asserted",
+			"Salsa20's keystream is an uninterpreted function of (nonce, position); XOR uses an arbitrary 1500-byte table (pbkdf2 key expansion not executed)",
+			"textbook CFB = C_i = P_i xor E(C_{i-1}), C_0 = IV[:bs], last partial block truncated, with the package's initialVector read from the interpreted package initialiser",
+			"single caller (the mutexes are C14's subject); AEAD Seal/Open length arithmetic is checked in the session harnesses",
+		},
+		stubs: []string{"cipher.Block.Encrypt -> uninterpreted function (native replay: AES-128 / DES with a fixed key)", "subtle.XORBytes -> native model with its documented length and overlap panics", "salsa20.XORKeyStream -> xor with an uninterpreted keystream"},
+		bounds: map[string]string{
+			"quick":    "every packet length 0..300 and 1400..1500 (one path per length), block sizes 8 and 16, in place and into a separate buffer pre-filled with arbitrary bytes: ciphertext = textbook CFB byte for byte, decrypt(encrypt(P)) = P, sources untouched; Salsa20, XOR, none: round trip, in place and separate",
+			"thorough": "every length 0..1500",
+		},
+		outside: "cryptographic strength; concurrent callers; block sizes other than 8 and 16 (encrypt panics for them by design)",
 	},
 	"C10": {
 		assumptions: kcpStateAssumptions,
